@@ -41,3 +41,32 @@ Theorem C12_history_counterexamples :
   ~ history_ok [48; 9; 6] /\ ~ history_ok [2; 4; 8; 16; 32] /\ ~ history_ok [63; 1] /\ ~ history_ok [].
 Proof. exact history_counterexamples. Qed.
 Print Assumptions C12_history_counterexamples.
+
+(* ---- the same for the target/source executor and for the periodic four-step sequence (Spec/FlagsTsm.v) ---- *)
+From Tbfmm Require Import Exec.ExecTsmDefs Exec.ExecPeriodicDefs Spec.FlagsTsm.
+
+Theorem C12_single_flag_only_tsm : forall d per s flags src tgt c, In c (execute_tsm d per s flags src tgt) ->
+  (forall id, c <> CAssert id) -> has flags (op_flag c) = true.
+Proof. exact single_flag_only_tsm. Qed.
+Print Assumptions C12_single_flag_only_tsm.
+
+Theorem C12_nothing_above_s_tsm : forall d per s flags src tgt c, In c (execute_tsm d per s flags src tgt) ->
+  match c with CM2M l _ _ | CL2L l _ _ | CM2L l _ _ => Z.max 0 s <= l | _ => True end.
+Proof. exact nothing_above_s_tsm. Qed.
+Print Assumptions C12_nothing_above_s_tsm.
+
+Theorem C12_staged_equals_full_tsm : forall d per L s src tgt h, history_ok h ->
+  st_eq (run L (flat_map (fun f => execute_tsm d per s f src tgt) h) st0) (run L (execute_tsm d per s 63 src tgt) st0).
+Proof. exact staged_equals_full_tsm. Qed.
+Print Assumptions C12_staged_equals_full_tsm.
+
+(* the documented periodic sequence is one admissible staged history: ignoring the top-tree calls it equals the full run *)
+Theorem C12_periodic_real_equals_full : forall d k L s t,
+  st_eq (run L (map_real (periodic_run d k s t)) st0) (run L (execute d true s 63 t) st0).
+Proof. exact periodic_real_equals_full. Qed.
+Print Assumptions C12_periodic_real_equals_full.
+
+Theorem C12_periodic_tsm_real_equals_full : forall d k L s src tgt,
+  st_eq (run L (map_real (periodic_run_tsm d k s src tgt)) st0) (run L (execute_tsm d true s 63 src tgt) st0).
+Proof. exact periodic_tsm_real_equals_full. Qed.
+Print Assumptions C12_periodic_tsm_real_equals_full.
